@@ -235,7 +235,7 @@ def run_rest(ctx, PM, f, FLAG):
     try:
         PR_.trace_and_judge(c8, "C10.1", "C10.2")
         n8 = engine.take_over(ctx, c8.obs, lambda o: o.rule == "C10.1" and o.key.endswith("|closes"), "C12.8")
-        ctx.floor("C12.8 obligations taken from the parser's error table", n8, 3)
+        ctx.floor("C12.8 obligations taken from the parser's error table", n8, 1)
     except CheckerError as e:
         raise CheckerError("C12.8 (the parser's error table could not be evaluated): %s" % e)
     # ---- C12.7 a connection that stays open goes on being served after a request whose body was not read: the drain takes exactly the bytes
